@@ -14,16 +14,18 @@ CLAIMED = {
              "loop-free hence complete, for all names, kinds, parents, __all__ and import maps); and the Visitor handlers over symbolic ast nodes: visit_if "
              "(TYPE_CHECKING flag restored on every exit, also before orelse), handle_attribute (one member per bound name, class/instance/module scope, "
              "annotation/value/docstring/span, __all__ handling), handle_function (property/setter/deleter/overload folding, labels from decorators, spans), "
-             "visit_classdef, visit_module, decorators_to_labels and get_base_property (with the rsplit uniqueness lemma discharged by cvc5). "
+             "visit_classdef, visit_module, decorators_to_labels and get_base_property (with the rsplit uniqueness lemma discharged by cvc5), get_docstring / "
+             "Visitor._get_docstring (every leading string literal, the empty one included, with its own span) and the docstring of each name bound by an assignment. "
              "Whole-module agreement with the source (one member per bound name, docstrings and spans) is a bounded native catalogue of generated modules.",
         note="Restricted claim: only the clauses listed in evidence.coverage.contracts are decided; the whole-module statement is a paper induction over the "
-             "per-handler contracts plus the bounded tier. ast node invariants assumed (lineno <= end_lineno, targets non-empty). Fixed: C01-D1/D2.",
+             "per-handler contracts plus the bounded tier. ast node invariants assumed (lineno <= end_lineno, targets non-empty). Fixed: C01-D1/D2/D3.",
         ref="DESIGN.md 3/C01"),
     "C02": dict(
         text="Proof for all lengths: the real get_parameters body (any rewrite of it in the supported subset) is proved equal to the CPython "
              "ast.arguments alignment rule at Skolem indices of lazy symbolic sequences; counterexamples are replayed against inspect.signature. "
              "Visitor.handle_function is proved to store exactly that list (annotations, defaults, kinds untouched; overload/property branches carry it), "
-             "Parameter.required and the Parameters lookup by name/index are proved, and a syntactic lemma shows the parameters statement reads only the signature.",
+             "Parameter.required and the Parameters lookup by name/index are proved, and a syntactic lemma shows the parameters statement reads only the signature. "
+             "The whole static pipeline against inspect.signature over every small parameter-list shape (function, method, async; overloads, accessors) is a bounded native tier.",
         note="Assumes ast.arguments validity (len(defaults) <= positional count, len(kw_defaults) == len(kwonlyargs)); expressions are opaque (C03).",
         ref="DESIGN.md 3/C02"),
     "C10": dict(
@@ -39,9 +41,11 @@ CLAIMED.update({
         text="Proof on the real sys_path / dynamic_import / GriffeLoader.load / _load_module_path / _inspect_module / _load_module / _load_submodule bodies: "
              "sys.path identity restored on every exit (any exception class, body rebinding sys.path), only ImportError escapes dynamic_import, every "
              "inspection / dynamic-import call site is dead when inspection is disallowed, compiled modules rejected; plus a syntactic lemma closing the "
-             "execution frontier (functions containing import/exec/subprocess primitives and their callers).",
+             "execution frontier (functions containing import/exec/subprocess primitives and their callers). The code run by an import may rebind sys.path (and then "
+             "succeed, raise or exit); sys.modules is an arbitrary table. Real loads with markers (side-effecting, compiled, source-less, missing modules; modules "
+             "that raise / exit / tamper with sys.path under inspection) are a bounded native tier.",
         note="Foreign calls (import_module, getattr on foreign objects, find_spec, visit, inspect) are opaque summaries that may raise any BaseException; "
-             "exceptions by handler-equivalence representatives; extensions are the user's code.",
+             "exceptions by handler-equivalence representatives; extensions are the user's code; dynamic_import is called with the finder's (non-empty) search paths.",
         ref="DESIGN.md 3/C15"),
     "C16": dict(
         text="Per-operation proof on the real mixins/collections/Alias code over symbolic object trees: _get_parts, get_member/__getitem__ (modular recursion, "
@@ -61,13 +65,14 @@ CLAIMED.update({
              "only AliasResolutionError/CyclicAliasError escape, caller marked before recursing = variant), Alias.target, Alias.final_target (each iteration inserts "
              "a fresh key that is the visited alias's path => terminates on finite heaps), Alias.kind/has_docstring never raise, one generic member iteration of "
              "resolve_module_aliases. Whole-graph clauses (no escape from load/resolve_aliases, fixpoint) are a bounded search over generated import graphs.",
-        note="Modular recursion (callee contract assumed at the recursive call); finite heap; exception constructors by contract. Fixed: C06-G2/G3/G4; known: C06-G1, C06-G5.",
+        note="Modular recursion (callee contract assumed at the recursive call); finite heap; exception constructors by contract. Alias.aliases is the real forwarding property (can raise the alias errors). Fixed: C06-G2/G3/G4, C06-P1; known: C06-G1, C06-G5.",
         ref="DESIGN.md 3/C06"),
 })
 
 CLAIMED.update({
     "C07": dict(
-        text="Proof on the real Class._mro (cycle reported as ValueError before any recursion; `seen` extended by the own path before recursing = termination "
+        text="Proof on the real Class.resolved_bases (one arbitrary base: found => appended in order, through an alias when it is one; not loaded / unresolvable => skipped and "
+             "only skipped, no iteration ends the loop), Class._mro (cycle reported as ValueError before any recursion; `seen` extended by the own path before recursing = termination "
              "variant; result [self, *merge(base linearizations, bases)]) and ObjectAliasMixin.all_members (own members never shadowed). "
              "Object.inherited_members (nearest definition in MRO order wins, inherited aliases under the subclass path, uncomputable MRO => {}) is verified "
              "symbolically for bounded sizes; c3linear_merge == C3 and whole-hierarchy agreement with CPython are a bounded exhaustive tier (type() as oracle).",
@@ -135,12 +140,13 @@ CLAIMED.update({
 CLAIMED.update({
     "C04": dict(
         text="Proof on the real Object.resolve (own scope wins; import target for aliases; only NameResolutionError and only at the top scope; the enclosing class's own "
-             "name short-cut only for non-module parents; otherwise the parent scope's answer for the same name), Function.resolve (__init__ parameter form), "
+             "name short-cut only for non-module parents; otherwise the enclosing scope's answer for the same name -- up to the module, whose globals are the last scope), "
+             "Visitor.visit_classdef (decorators and base classes get the scope the class statement stands in), Function.resolve (__init__ parameter form), "
              "ExprName.canonical_path (never raises, bare name when unbound, segment-by-segment attribute chains), Visitor.visit_import / visit_importfrom for an "
              "arbitrary imported name (bound name, target path, import map, self-import / submodule-import exceptions, runtime flag, span), "
              "_build_attribute (value.attr: the new name is linked to the name on its left so it resolves segment by segment, a dotted chain stays one flat chain in source order). "
              "relative_to_absolute == importlib's _resolve_name is verified symbolically for levels 0..3 and nesting <= 3; agreement with CPython binding is a bounded native tier.",
-        note="Modular recursion on the parent scope; ast invariants (asname None or non-empty). Code that raises NameError in CPython (names of an enclosing class used in a nested class body) is outside the domain.",
+        note="Modular recursion on the parent scope; ast invariants (asname None or non-empty). Code that raises NameError in CPython (names of an enclosing class used in a nested class body) is outside the domain. Fixed: C04-P1 (a module's globals are the last scope).",
         ref="DESIGN.md 3/C04"),
 })
 
@@ -162,8 +168,11 @@ CLAIMED.update({
         text="Shape-level inverse-pair proof on the real as_dict methods and the real json_decoder / _load_* functions: for Function (parameters, returns, decorators), "
              "Attribute, Alias, Class (bases, decorators, members with restored parent links) and Module (path / built-in / namespace file paths), objects built by the real "
              "constructors with symbolic fields are dumped (minimal form), decoded bottom-up by the real json_decoder and shown to reload without error, with every listed "
-             "field equal and an identical key set on re-serialisation. Whole trees, every expression class, both agents and the full form are a bounded native tier.",
-        note="JSON codec mirrored by the contract (nested as_dict, set->list, enum->value); cleandoc idempotence axiom; expressions as strings. Fixed: C08-D4/D13/D14/D15/D16; "
+             "field equal and an identical key set on re-serialisation; the loader gives every name of every expression it stores (decorators, bases, parameter "
+             "annotations and defaults, returns, attribute values and annotations) its scope back. Whole trees, every expression class, both agents, the full form and "
+             "the command-line dump are a bounded native tier.",
+        note="JSON codec mirrored by the contract (nested as_dict, set->list, enum->value); inspect.cleandoc uninterpreted (no idempotence assumed); expressions as "
+             "strings. Fixed: C08-D4/D13/D14/D15/D16/D17/D18; "
              "known: C08-F1 (full form not reloadable), F4 (overloads), F5 (instance-attribute value scope), F6/F7 (full dump of namespace / built-in modules raises).",
         ref="DESIGN.md 3/C08"),
     "C09": dict(
@@ -185,13 +194,13 @@ CLAIMED.update({
              "The plain-text clause and section well-formedness are a bounded native corpus.",
         note="The parent is None or a model object of unknown class whose reads may raise per the listed policy; regex outcomes are abstract except group optionality "
              "(derived from the real patterns); compile() may raise SyntaxError / ValueError; RecursionError / MemoryError not modelled. "
-             "Fixed: C12-F0..F4; known: C12-F5 (alias resolution errors from parent reads escape).",
+             "Fixed: C12-F0..F5 (no known finding left).",
         ref="DESIGN.md 3/C12"),
 })
 
 CLAIMED.update({
     "C03": dict(
-        text="One lemma per expression node class (28 classes) on the real _build_X / dataclass constructor / ExprX.iterate / _yield / _join / _precedence / "
+        text="One lemma per expression node class (29 classes; lambdas bounded-symbolic: <= 2+1+1+1+1 parameters) on the real _build_X / dataclass constructor / ExprX.iterate / _yield / _join / _precedence / "
              "Expr.__str__: for children of arbitrary class and operator, str(_build_X(node)) equals the grammar template of X -- separators, brackets, operator "
              "spelling, and parentheses exactly around the children that bind less tightly than their position requires; sub-expression flags (in_subscript, "
              "in_joined_str / in_formatted_str) reach only the children they are meant for; operator and binding-level tables equal the language reference; "
@@ -199,7 +208,7 @@ CLAIMED.update({
              "_build_constant's decision, and a call-site lemma (only annotation helpers use auto mode). That the templates parse back to the source tree "
              "is validated against ast.parse on a catalogue of expressions (bounded native tier).",
         note="Children are abstracted to (class, operator, uninterpreted rendering); arbitrary nesting follows by structural induction (paper). Quick tier: one child at a "
-             "time is arbitrary, thorough: every pair at once; child sequences have 0..2 elements. Fixed: C03-P1..P9 (parenthesization and 8 rendering defects); "
+             "time is arbitrary, thorough: every pair at once; child sequences have 0..2 elements. Fixed: C03-P1..P11 (parenthesization and 10 rendering defects, incl. lambda markers and f-string fields starting with a brace); "
              "known: C03-F1 (f-string conversion / format spec not stored).",
         ref="DESIGN.md 3/C03"),
 })
